@@ -102,8 +102,37 @@ def rule_radix(ctx):
                               "the digit is taken modulo `%s` but the index is divided by `%s`: indices no longer map one-to-one onto digit vectors" % (r1, r2), st)
                     ctx.check(j < i, R, f, "order %s" % ast.unparse(node), "the digit is read before the index is shifted",
                               "`%s` is evaluated after `%s`: the least significant digit is lost" % (ast.unparse(node), ast.unparse(st)), st2)
-    ctx.min_instances(R, 8)
-    ctx.require(n >= 4, "only %d digit loops found (4 confirmed by hand)" % n)
+    ctx.extra["digit_loops"] = n
+
+
+def rule_exact(ctx):
+    """index arithmetic is exact: integer operators only"""
+    R = "C13.exact"
+    repo = ctx.repo
+    n = 0
+    for f in repo.all_functions:
+        if isinstance(f.node, ast.Lambda) or f.parent is not None:
+            continue
+        in_comb = f.module.short == "combinatorics"
+        in_enum = f.module.short == "random" and f.cls is not None and f.cls.name == "UCSolutionEnumerator" and \
+            any(t in f.name for t in ("count", "generate", "jth", "components", "sum_combination"))
+        if not (in_comb or in_enum):
+            continue
+        n += 1
+        bad = None
+        for node in ast.walk(f.node):
+            if isinstance(node, (ast.BinOp, ast.AugAssign)) and isinstance(node.op, ast.Div):
+                bad = node
+            elif isinstance(node, ast.Call) and isinstance(node.func, ast.Name) and node.func.id in ("float", "round"):
+                bad = node
+            elif isinstance(node, ast.Call) and dotted(node.func) in ("math.floor", "math.ceil", "math.log", "math.sqrt", "math.pow", "math.exp"):
+                bad = node
+            elif isinstance(node, ast.Constant) and isinstance(node.value, float):
+                bad = node
+        ctx.check(bad is None, R, f, "integer arithmetic in %s" % f.qual, "only exact integer operators (// % * + - pow factorial) touch indices and counts",
+                  "`%s` brings floating point into the index arithmetic of %s: beyond 2**53 distinct indices collapse and counts are off by rounding" % (
+                      ast.unparse(bad) if bad is not None else "", f.qual), bad)
+    ctx.require(n >= 25, "only %d counting / unranking functions found" % n)
 
 
 def rule_span(ctx):
@@ -217,6 +246,10 @@ def rule_dispatch(ctx):
             ctx.check(ok, R, unr, "general case [%s]" % t, "same routine, same q / copies / length / memo; find = -1 counts, find = j unranks",
                       "under `%s` counting calls %s%s but unranking calls %s%s" % (t, cn, ca, un, ua))
         elif cn == "pow":
+            ctx.check(t == "(first_n <= m_or_counters)", R, cnt, "closed form applies [%s]" % t,
+                      "q ** first_n counts the prefixes exactly when no element can run out of copies: first_n <= m",
+                      "the closed form pow(q, first_n) is used under `%s`; it counts prefixes of permutations with m copies only while first_n <= m "
+                      "(beyond that it also counts sequences that use an element more than m times)" % t)
             ok = un == "compute_jth_combination" and len(ua) == 3 and len(ca) == 2 and ua[0] == ca[1] and ua[1] == ca[0] and ua[2] == "j"
             ctx.check(ok, R, unr, "closed form [%s]" % t, "pow(q, first_n) counts what compute_jth_combination(first_n, q, j) enumerates (n ** l)",
                       "under `%s` the count is pow%s but the unranker is %s%s (expected compute_jth_combination(exponent, base, j))" % (t, ca, un, ua))
@@ -446,6 +479,7 @@ def rule_siblings(ctx):
 
 
 def check(ctx):
+    rule_exact(ctx)
     rule_radix(ctx)
     rule_span(ctx)
     rule_dispatch(ctx)
@@ -453,10 +487,17 @@ def check(ctx):
     rule_memo(ctx)
     rule_siblings(ctx)
     mod = sys.modules[__name__]
+    control(ctx, mod, "float division in the digit loop", lambda s: variants.in_function(s, COMB, "compute_jth_inversion_sequence", "j //= k", "j = int(j / k)"), "C13.exact")
+    control(ctx, mod, "closed form beyond its range (both dispatchers)",
+            lambda s: variants.in_function(variants.in_function(s, COMB, "compute_jth_prefix_of_permutations_with_copies", "if first_n <= m:", "if first_n <= q:"),
+                                           COMB, "count_prefixes_of_permutations_with_copies", "if first_n <= m:", "if first_n <= q:"), "C13.dispatch")
     control(ctx, mod, "shift by a different radix", lambda s: variants.in_function(s, COMB, "compute_jth_combination", "j //= n", "j //= (n - 1)"), "C13.radix")
     control(ctx, mod, "one-sided case split", lambda s: variants.in_function(s, COMB, "compute_jth_prefix_of_permutations_with_copies", "if first_n <= m:", "if first_n < m:"), "C13.dispatch")
     control(ctx, mod, "skip a different amount", lambda s: variants.in_function(s, COMB, "k_prefixes_of_permutations_with_copies", "                        find -= total\n", "                        find -= m_value\n"), "C13.search")
     control(ctx, mod, "multiplier leaks into the memo", lambda s: variants.in_function(s, COMB, "k_prefixes_of_permutations_with_copies", "            memo[(start_i, need_n)] = value\n", "            memo[(start_i, need_n)] = value * multiplier\n"), "C13.memo")
+    ctx.min_instances("C13.exact", 25)
+    ctx.min_instances("C13.radix", 8)
+    ctx.require(ctx.extra.get("digit_loops", 0) >= 4, "only %s digit loops found (4 confirmed by hand)" % ctx.extra.get("digit_loops"))
     ctx.min_instances("C13.span", 7)
     ctx.min_instances("C13.dispatch", 5)
     ctx.min_instances("C13.enumerator", 6)
